@@ -185,6 +185,8 @@ ExecEv ==
                   <<T.n = cyc + 1, "C06-exec-cycle-number">>,
                   <<cyc < maxc, "C06-fired-beyond-maxcycle">>,
                   <<evald = Active, "C06-exec-before-all-evaluated">>,
+                  \* (the same, as C10 puts it: a rule is out of the run only if an action of THIS call retracted it)
+                  <<Active \subseteq evald, "C10-active-rule-not-evaluated">>,
                   <<r \in cands, "C06-exec-of-non-candidate">>,
                   <<known => ~rules[r].del /\ r \notin retracted, "C01-inactive-rule-fired">>,
                   <<known => Truth(r), "C01-fired-on-false-condition">>,
@@ -249,6 +251,7 @@ RetExec ==
        \* (a run may not end because the rule fired last retracted something: every other rule is unaffected)
        <<(e = "nil" /\ ~cancelled /\ lastExec \in Names /\ HasRetract(lastExec)) => (complete \/ Quiescent), "C10-retract-ended-the-run">>,
        <<(e = "nil" /\ ~cancelled) => (complete \/ Quiescent), "C02-returned-with-satisfied-rule">>,
+       <<(e = "nil" /\ ~cancelled /\ ~complete) => Active \subseteq evald, "C10-active-rule-not-evaluated">>,
        <<(e = "nil" /\ complete /\ ~cancelled) => execd, "C10-complete-without-exec">>,
        \* (a cancellation that arrives after the engine's last look at the context races with the natural end
        \*  of the run: nil at quiescence and the cycle-limit error are then still truthful, no action was started)
